@@ -2,7 +2,7 @@
     Statements only (closed by [exact]); proofs are in Proofs/C03.v and Proofs/C03b.v; the model is
     Model/Outbound.v. [trace ops] is the concatenated output stream of running the operation list
     [ops] (ANY list, any interleaving of payment ids) from the empty [OutboundPayments]. *)
-Require Import LdkV.Prim.U64 LdkV.Gen.ConstsC03 LdkV.Model.Outbound LdkV.Proofs.C03 LdkV.Proofs.C03b LdkV.Proofs.C03c.
+Require Import LdkV.Prim.U64 LdkV.Gen.ConstsC03 LdkV.Model.Outbound LdkV.Proofs.C03 LdkV.Proofs.C03b LdkV.Proofs.C03c LdkV.Proofs.C03d.
 Open Scope Z_scope.
 
 (** The per-id scanner accepts every run: no creation while an entry is present; no terminal event,
@@ -149,6 +149,34 @@ Theorem C03_no_failed_while_part_pending : forall id p y c,
   (forall sp amt fee perm probe, sp <> y -> has_failed (snd (fail_t id sp amt fee perm probe c (Some p))) = false).
 Proof. exact no_failed_while_pending. Qed.
 
+(** The fee a PaymentSent reports is the fee actually committed: for every function F from session privs
+    to fees with which the run is consistent (no session priv is handed out twice with different fees
+    — an assumption about the entropy source; fees are not negative), for ALL operation lists, a
+    PaymentSent reports no fee or exactly the sum of the fees of the parts that are pending in the
+    entry at the moment of the claim. This covers a payment that was abandoned before (a part that
+    failed after the abandonment no longer counts) and whatever restarts re-insert (a session priv
+    that is already tracked is not counted again). The first statement is for ANY state satisfying
+    the per-entry invariant "pending fee = sum of the fees of the pending parts". *)
+Theorem C03_sent_fee_truth_any_state : forall (F : Z -> Z) s o id pre amt fee,
+  (forall sp, 0 <= F sp) -> feeinv F s ->
+  In (OEv (EvSent id pre amt fee)) (snd (step s o)) ->
+  exists p, get id (pm s) = Some p /\ is_fulfilled p = false /\
+            forall x, fee = Some x -> x = sumf F (parts_of p).
+Proof. exact sent_fee_truth_any_state. Qed.
+
+Theorem C03_sent_fee_truth : forall (F : Z -> Z) ops o id pre amt fee,
+  (forall sp, 0 <= F sp) ->
+  Forall (consistent F) (snd (run init ops)) ->
+  In (OEv (EvSent id pre amt fee)) (snd (step (fst (run init ops)) o)) ->
+  exists p, get id (pm (fst (run init ops))) = Some p /\ is_fulfilled p = false /\
+            forall x, fee = Some x -> x = sumf F (parts_of p).
+Proof. exact sent_fee_truth. Qed.
+
+(** ... and the invariant is kept by every operation whose own allocations are consistent with F *)
+Theorem C03_fee_invariant : forall (F : Z -> Z) s o,
+  (forall sp, 0 <= F sp) -> feeinv F s -> consistent F (snd (step s o)) -> feeinv F (fst (step s o)).
+Proof. exact fee_invariant. Qed.
+
 (** Which operation can emit which kind of output (PaymentSent only from a claim, PaymentFailed
     only from send/retry/fail/abandon/tick, creation only from add/await/send/startup, ...). *)
 Theorem C03_output_kinds : forall st o, kinds_in (op_kinds o) (snd (step st o)) = true.
@@ -179,3 +207,20 @@ Example C03_ex_drained_retryable :
   get 7 (pm st) = Some (Retryable (Some 3) 0 true [] 1 0 (Some 0) 1000 None) /\
   snd (step st (OpCheckRetry [])) = [OEv (EvFailed 7 (Some 1) (Some R_RouteNotFound))].
 Proof. vm_compute. split; reflexivity. Qed.
+
+(** a payment is abandoned with two parts in flight (fees 1 and 406), the 406 part fails, the other
+    is claimed: PaymentSent reports the 1 msat that was paid *)
+Example C03_ex_abandoned_then_claimed :
+  map (fun outs => flat_map (fun o => match o with OEv e => [e] | _ => [] end) outs)
+      (snd (run init [OpSend 4 10 0 242858 None [ARoute 3 [2256; 1; 406] 0 [SUnavail; SOk; SOk]];
+                      OpFail 3 true false; OpClaim 2 10 false])) =
+  [[EvPathFailed 4 1 false true]; [EvPathFailed 4 3 true false]; [EvSent 4 10 (Some 242858) (Some 1)]].
+Proof. vm_compute. reflexivity. Qed.
+
+(** three restarts re-report a tracked HTLC: its fee is counted once *)
+Example C03_ex_reinserted_on_startup :
+  map (fun outs => flat_map (fun o => match o with OEv e => [e] | _ => [] end) outs)
+      (snd (run init [OpSend 1 11 2 1000000 None [ARoute 1 [1000] 0 [SOk]];
+                      OpStartup 1; OpStartup 1; OpStartup 1; OpClaim 1 11 true])) =
+  [[]; []; []; []; [EvSent 1 11 (Some 1000000) (Some 1000); EvPathOk 1 1]].
+Proof. vm_compute. reflexivity. Qed.
